@@ -64,6 +64,10 @@ inductive Kind
   | absx                      -- |y|
   | ramp                      -- y·u(y)
   | rect | tri | sinc | sinc2 -- rect(y), tri(y), sin(πy)/(πy) and its square
+  | sincu                     -- sin(y)/y = sinc(y/π)   (unnormalised sinc)
+  | trap (al : Rat)           -- trapezoid trap(y, α), 0 < α ≤ 1: 1 for |y| ≤ (1−α)/2, 0 for |y| ≥ (1+α)/2, linear between
+                              --   (= rect ∗ (1/α)rect(·/α); α → 0: rect, α = 1: tri)
+  | sincp (al : Rat)          -- sinc(y)·sinc(α y), the spectrum of the trapezoid
   | gauss                     -- e^{-π y²}
   | expu (k : Nat) (al : CQ)  -- y^k e^{-α y} u(y)          (Re α > 0 for the integral to exist)
   | cpole (n : Nat) (al : CQ) -- (α + j2π y)^{-n}
@@ -125,6 +129,9 @@ def ftKind (pi : Rat) : Kind → List Pair
   | .tri => [⟨1, .sinc2, 1⟩]
   | .sinc2 => [⟨1, .tri, 1⟩]
   | .gauss => [⟨1, .gauss, 1⟩]
+  | .sincu => [⟨CQ.ofRat pi, .rect, pi⟩]             -- sin(t)/t ⟷ π·rect(πf)
+  | .trap al => [⟨1, .sincp al, 1⟩]                   -- unit area: the spectrum is 1 at f = 0
+  | .sincp al => [⟨1, .trap al, 1⟩]
   | .expu k al => [⟨CQ.ofRat (fact k), .cpole (k + 1) al, 1⟩]
   | .cpole 0 _ => [⟨1, .delta 0, 1⟩]
   | .cpole (n + 1) al => [⟨CQ.ofRat (1 / (fact n : Rat)), .expu n al, -1⟩]
@@ -236,11 +243,12 @@ def pairG : Kind → Option (List GTerm)
   | .sinc2 => some [⟨1, 0, 1, 0, .tri, true, 1, 1, 0⟩]
   | .rect => some [⟨1, 0, 1, 0, .sinc, true, 1, 1, 0⟩]
   | .tri => some [⟨1, 0, 1, 0, .sinc2, true, 1, 1, 0⟩]
+  | .sincu => some [⟨1, 0, 1, 1, .rect, true, 1, 1, 1⟩]
   | _ => none
 
 /-- parity of an atom: `some true` even, `some false` odd, `none` neither -/
 def Kind.parity : Kind → Option Bool
-  | .one | .inv2 | .absx | .rect | .tri | .sinc | .sinc2 | .gauss => some true
+  | .one | .inv2 | .absx | .rect | .tri | .sinc | .sinc2 | .gauss | .sincu | .trap _ | .sincp _ => some true
   | .inv1 | .sgn => some false
   | .delta n | .pw n => some (n % 2 == 0)
   | _ => none
